@@ -825,7 +825,7 @@ def layout_grid(R, maxlen, sample):
     if sample is not None and len(seqs) > sample:
         head = [s for s in seqs if len(s) <= 2]
         rest = [s for s in seqs if len(s) > 2]
-        seqs = head + R.rng.sample(rest, sample - len(head))
+        seqs = head + R.rng.sample(rest, min(len(rest), max(0, sample - len(head))))
     lines, meta = [], []
     for seq in seqs:
         tree = {"bs": [], "names": None, "dev": None,
